@@ -7,7 +7,7 @@ Sub-checks (the "check" key of a case):
             Poisson count").  Invariants of the property on every returned sample.
   solver    SGD / Adam / Adagrad epoch loop with a scripted duck-typed sampler (every entry once, unit weights),
             so that f_est is the exact objective; the function handle is wrapped and records the objective and the
-            model values at every epoch boundary ("true trace").
+            model values at every epoch boundary ("true trace").  Data pool: count tensors of order 2..5.
   init      gcp_opt(init="random") under an enumerated numpy seed: unit weights, scaled to the norm of the data,
             non-negative, a function of the random stream only; no epochs -> returned unchanged.
   lbfgsb    scipy wrapper: final <= initial, final_f is the objective of the returned model, bounds, callback slot.
@@ -33,7 +33,10 @@ RULE = ("sampler: environment explorer - numpy.random.uniform/choice/poisson are
         "choice-point signature differs from the recorded one is a hard error, a failing script is replayed a "
         "second time before it is reported.  solver/lbfgsb: product of the configuration lattice x data family, "
         "one real solve each, invariants evaluated on the recorded true trace; the stop tolerance f_est_tol is "
-        "placed relative to the objective of the starting guess, on both sides of it.  Sparse data is enumerated as "
+        "placed relative to the objective of the starting guess, on both sides of it; an epoch that ends with a "
+        "non-finite objective (overflowed iterates) is a failed epoch in the reference stop rule, only a non-finite "
+        "objective of the starting guess or the library's own 'Infinite gradient' error put a solve outside the "
+        "quantifier.  Sparse data is enumerated as "
         "(zero pattern, stored order of the nonzeros) for every sampler entry point.  The data family further has the "
         "dimensions STORAGE DTYPE (float64 | integer stores of the same values | a boolean store of binary data) and "
         "ORDER (shapes of order 4 / 5 with the cell counts of the order 2 / 3 shapes): for each of them the whole "
@@ -56,7 +59,7 @@ ASSUMPTIONS = [
     "time traces and wall-clock fields are not compared",
 ]
 BOUNDS = {
-    "quick": "sampler (~0.69 M scripted executions): shapes (2,2) all 16 zero patterns and (2,3) 8 pattern classes, "
+    "quick": "sampler (~0.88 M scripted executions): shapes (2,2) all 16 zero patterns and (2,3) 8 pattern classes, "
              "values = distinct signed odd integers; every operation that is handed an sptensor with >= 2 nonzeros is run "
              "on two stored orders of the nonzeros (column-major and reversed); uniform on dense and sparse holder "
              "n=0..6; nonzeros / zeros with and without replacement 0..available+2; stratified (nn, nz) on the cross "
@@ -79,7 +82,7 @@ BOUNDS = {
              "losses x 5 members x rank {1,2} x mask {none, one hole} x {solve, gcp_opt}. reuse (2 540 words): 5 optimizer "
              "kinds (LBFGSB with / without user callback) x 2 configurations x {scripted, seeded real} sampler x all 155 "
              "words of length <= 3 over 5 problems (three sizes, orders 2 / 3 / 4, two ranks, two losses)",
-    "thorough": "sampler (~5.8 M executions): (2,2) all patterns with the full (nn, nz) grid 0..nnz+2 x 0..zeros+2, (2,3) "
+    "thorough": "sampler (~8.3 M executions): (2,2) all patterns with the full (nn, nz) grid 0..nnz+2 x 0..zeros+2, (2,3) "
                 "all 64 patterns (GCPSampler lattice on 8 classes), (2,2,2) 8 classes; two stored orders as in quick; "
                 "Poisson counts 0..3; scripts "
                 "complete for <= 5 draws ((2,2,2): 4), <= 2 deviations up to 12 / 7 / 6 draws; boundary draws on (2,2) "
@@ -89,7 +92,8 @@ BOUNDS = {
                 "decay {.1,.5,1} x max_fails 0..3 x "
                 "max_iters 0..6 x epoch_iters {1,2,3} x rank {1,2} x 7 pool members (5 of order 2 / 3, order 4, order 5); "
                 "f_est_tol slice as in quick with "
-                "rate {1e-3,1e-2,1e-1,10}. init: all 8 members x {float64, int64, int32}. lbfgsb: maxiter {0,1,2,3,5,10,40,"
+                "rate {1e-3,1e-2,1e-1,10} (118 944 solves; rate 10 x epoch_iters 3 on the order-4 member reaches "
+                "NaN epochs). init: all 8 members x {float64, int64, int32}. lbfgsb: maxiter {0,1,2,3,5,10,40,"
                 "200}. reuse: 6 problems incl. sparse data and order 4 (258 words), 3 configurations",
 }
 CHUNK = 1
@@ -1145,10 +1149,16 @@ def _one_solve(c, ctx, ttb):
         fail("wrong_protocol", f"function_sample called {smp.nf} times (the function sample is fixed)")
     if smp.ng != performed * c["epoch_iters"]:
         fail("wrong_protocol", f"{smp.ng} gradient samples for {performed} evaluated epochs of {c['epoch_iters']}")
-    if not np.all(np.isfinite(t)):
+    if not np.isfinite(t[0]):
+        # the starting guess has no finite objective: outside the quantifier
         ctx.inadm()
-        ctx.count("solver_nonfinite_trace")
+        ctx.count("solver_nonfinite_start")
         return
+    if not np.all(np.isfinite(t)):
+        # an epoch ended with an overflowed model (objective inf / NaN): it is an epoch that did not improve on the
+        # best model, i.e. a failed epoch - the verdicts below are asserted as for any other run
+        ctx.flag("solver:nonfinite_epoch")
+        ctx.count("solver_nonfinite_trace")
     F0i = ref_F(loss, X, init_f)
     if abs(t[0] - F0i) > 1e-9 * (1 + abs(F0i)):
         fail("wrong_value", f"trace[0] {t[0]!r} but the objective of the guess is {F0i!r}", op + ".f_est_trace")
@@ -1158,7 +1168,7 @@ def _one_solve(c, ctx, ttb):
     nf = 0
     stop_at = None
     for k in range(1, performed + 1):
-        failed = t[k] > best
+        failed = not (t[k] <= best)   # a NaN objective is not an improvement
         word += "F" if failed else "S"
         nf += failed
         if not failed:
@@ -1182,12 +1192,12 @@ def _one_solve(c, ctx, ttb):
         fail("wrong_length", f"{lens} after {performed} completed epochs (expected {performed + 1} entries: "
              "the start value plus one per epoch)", op + ".f_est_trace")
     m = min(len(tr), len(t))
-    if not np.array_equal(tr[:m], t[:m]):
+    if not np.array_equal(tr[:m], t[:m], equal_nan=True):
         fail("wrong_value", f"reported trace {tr.tolist()} but the objective values were {t.tolist()}",
              op + ".f_est_trace")
     # best model
     Fm = ref_F(loss, X, ret_f)
-    tmin = float(np.min(t))
+    tmin = float(np.nanmin(t))
     if not (abs(Fm - tmin) <= 1e-9 * (1 + abs(tmin))):
         fail("not_best", f"objective of the returned model {Fm!r}, smallest value at an epoch boundary {tmin!r}; "
              f"true trace {t.tolist()} word {word}")
